@@ -56,6 +56,27 @@ pub struct Eval<'a> {
     pub extra_polls: usize,
 }
 
+thread_local! {
+    /// The last few cases executed on this worker thread (most recent last): the candidates for
+    /// "an earlier call left state behind" when a case does not reproduce.
+    static RECENT: std::cell::RefCell<std::collections::VecDeque<(Req, EntSpec)>> = const { std::cell::RefCell::new(std::collections::VecDeque::new()) };
+}
+
+/// Runs `f` on a new OS thread: no thread-local state of the subject survives from earlier calls.
+pub fn on_fresh_thread<T: Send>(f: impl FnOnce() -> T + Send) -> T {
+    std::thread::scope(|s| s.spawn(f).join().expect("fresh thread"))
+}
+
+/// Executes `history` (each request drained), then `req`, all on one fresh thread.
+pub fn run_after(history: &[(Req, EntSpec)], req: &Req, ent: &EntSpec, extra: usize) -> Option<ServeObs> {
+    on_fresh_thread(|| {
+        for (r, e) in history {
+            let _ = run_serve(r, e, 1, HORIZON);
+        }
+        run_serve(req, ent, extra, HORIZON)
+    })
+}
+
 impl Eval<'_> {
     /// One execution + oracle. Returns the observation and the findings for this property.
     pub fn run(&self, req: &Req, ent: &EntSpec, st: &mut Stats, order: u64) -> Option<(ServeObs, Model)> {
@@ -81,6 +102,13 @@ impl Eval<'_> {
             .unwrap_or("none");
         st.outcome(format!("{shape_class}/{term}"));
         self.report(req, ent, &obs, fs, st, order);
+        RECENT.with(|r| {
+            let mut r = r.borrow_mut();
+            if r.len() >= 3 {
+                r.pop_front();
+            }
+            r.push_back((req.clone(), ent.clone()));
+        });
         Some((obs, m))
     }
 
@@ -94,8 +122,34 @@ impl Eval<'_> {
                 // Determinism: the same case must give the same observation again.
                 let again = run_serve(req, ent, self.extra_polls, HORIZON).expect("rerun");
                 if again.stable_repr() != obs.stable_repr() {
-                    eprintln!("MACHINERY ERROR: non-deterministic replay of {}", case_json(req, ent, self.extra_polls));
-                    std::process::exit(2);
+                    // Either the harness is not deterministic (machinery failure), or the subject
+                    // keeps state between calls. From a clean thread the case must be reproducible.
+                    let f1 = run_after(&[], req, ent, self.extra_polls).expect("rerun");
+                    let f2 = run_after(&[], req, ent, self.extra_polls).expect("rerun");
+                    if f1.stable_repr() != f2.stable_repr() {
+                        eprintln!("MACHINERY ERROR: non-deterministic replay of {}", case_json(req, ent, self.extra_polls));
+                        std::process::exit(2);
+                    }
+                    // serve() is not a function of its inputs: look for the earlier call that matters
+                    let recent: Vec<(Req, EntSpec)> = RECENT.with(|r| r.borrow().iter().cloned().collect());
+                    let mut found: Option<Vec<(Req, EntSpec)>> = None;
+                    for k in 1..=recent.len() {
+                        let h = recent[recent.len() - k..].to_vec();
+                        if let Some(o) = run_after(&h, req, ent, self.extra_polls) {
+                            if o.stable_repr() == obs.stable_repr() {
+                                found = Some(h);
+                                break;
+                            }
+                        }
+                    }
+                    let extra = self.extra_polls;
+                    st.violation(order, format!("{}:after-earlier-calls", fi.key), format!("{} -- and the same request gives a different response on a fresh thread: serve() keeps state between calls{}", fi.msg, if found.is_some() { "" } else { " (the earlier calls that matter could not be identified; not replayable)" }), || {
+                        let mut c = case_json(req, ent, extra);
+                        c["observed"] = obs.to_json();
+                        c["history"] = json!(found.as_ref().map(|h| h.iter().map(|(r, e)| json!({"request": r.to_json(), "entity": ent_to_json(e)})).collect::<Vec<_>>()));
+                        c
+                    });
+                    return;
                 }
                 checked = true;
             }
@@ -707,10 +761,59 @@ pub fn run_c04(run: &mut Run) -> Stats {
             }
         }
     }
-    run.rule = format!("full categorical product: entity etag {{absent, strong, weak, strong containing ', '}} x mtime {{absent, whole second, +1ms, +999999999ns}} x If-Match x If-None-Match (absent, *, every list of 1..k tags over {{same strong, same weak, other strong, other weak, \"a, b\"}} with separators ',' ', ' ',\\t'; k=({ka},{kb}) and ({kb},{ka})) x If-Modified-Since x If-Unmodified-Since {{absent, LM-1s, LM, LM+1s{}}} x GET/HEAD; oracle = straight-line RFC 7232 s.6 evaluation. non-trivial = distinct (entity validators, four header values, method) with at least one conditional header", if tier == Tier::Thorough { "; also RFC 850 and asctime spellings" } else { "" });
+    run.rule = format!("full categorical product: entity etag {{absent, strong, weak, strong containing ', '}} x mtime {{absent, whole second, +1ms, +999999999ns}} x If-Match x If-None-Match (absent, *, every list of 1..k tags over {{same strong, same weak, other strong, other weak, \"a, b\"}} with separators ',' ', ' ',\\t'; k=({ka},{kb}) and ({kb},{ka})) x If-Modified-Since x If-Unmodified-Since {{absent, LM-1s, LM, LM+1s{}}} x GET/HEAD; plus a linear date family (one date header in RFC 850 / asctime spelling for LM-1/LM/LM+1, or at the epoch, in 2100, in 9999 or 400 days after the run, the other date header in {{absent, LM-1, LM+1}}, tag lists of <= 1 element); oracle = straight-line RFC 7232 s.6 evaluation. non-trivial = distinct (entity validators, four header values, method) with at least one conditional header", if tier == Tier::Thorough { "; also RFC 850 and asctime spellings" } else { "" });
     run.bounds = json!({"big_lists": big.len(), "small_lists": small.len(), "dates": dates.len()});
     let ev = Eval { prop: &run.prop.clone(), extra_polls: 1 };
-    par_for(outer.len() as u64, threads(), |i, st| {
+    // Linear family: other spellings and other magnitudes of the two dates. Each of the three
+    // HTTP-date formats for each relation to the Last-Modified second, dates far in the future
+    // (beyond the server's clock) and at the epoch; one date header varies, the other takes a few
+    // values, tag lists of at most one element.
+    let now_secs = std::time::SystemTime::now().duration_since(std::time::UNIX_EPOCH).unwrap().as_secs();
+    let mut odd_dates: Vec<Vec<u8>> = Vec::new();
+    for d in [gen::LM - 1, gen::LM, gen::LM + 1] {
+        odd_dates.push(fmt_rfc850(d).into_bytes());
+        odd_dates.push(fmt_asctime(d).into_bytes());
+    }
+    for d in [0u64, 1, now_secs + 400 * 86_400, 253_402_300_799 /* 9999-12-31 23:59:59 */, 4_102_444_800 /* 2100 */] {
+        odd_dates.push(fmt_imf(d).into_bytes());
+        odd_dates.push(fmt_asctime(d).into_bytes());
+    }
+    let tiny = tag_lists(1, &seps);
+    let mut outer2 = Vec::new();
+    for e in &etags {
+        for mt in &mtimes {
+            for od in &odd_dates {
+                for other in [None, Some(fmt_imf(gen::LM - 1).into_bytes()), Some(fmt_imf(gen::LM + 1).into_bytes())] {
+                    for odd_is_ims in [true, false] {
+                        for me in ["GET", "HEAD"] {
+                            outer2.push((e.clone(), *mt, od.clone(), other.clone(), odd_is_ims, me));
+                        }
+                    }
+                }
+            }
+        }
+    }
+    let st2 = par_for(outer2.len() as u64, threads(), |i, st| {
+        let (e, mt, od, other, odd_is_ims, me) = &outer2[i as usize];
+        let entity = ent(10, e.as_deref(), *mt, vec![], vec![]);
+        let (ims, ius) = if *odd_is_ims { (Some(od.clone()), other.clone()) } else { (other.clone(), Some(od.clone())) };
+        let base = add(&add(&Req::new(me), "if-modified-since", &ims), "if-unmodified-since", &ius);
+        let mut order = (1u64 << 60) | (i << 16);
+        for im in &tiny {
+            let r1 = add(&base, "if-match", im);
+            for inm in &tiny {
+                let req = add(&r1, "if-none-match", inm);
+                order += 1;
+                if let Some((obs, m)) = ev.run(&req, &entity, st, order) {
+                    st.nontrivial(&(&req, ent_key(&entity)));
+                    st.count(&format!("date-family-verdict:{:?}", m.cond), 1);
+                    st.sample(1, || json!({"request": req.to_json(), "verdict": format!("{:?}", m.cond), "status": obs.status}));
+                }
+            }
+        }
+    });
+    run.bounds["odd_dates"] = json!(odd_dates.iter().map(|d| String::from_utf8_lossy(d).to_string()).collect::<Vec<_>>());
+    let mut total = par_for(outer.len() as u64, threads(), |i, st| {
         let (e, mt, ims, ius, me, big_is_im) = &outer[i as usize];
         let entity = ent(10, e.as_deref(), *mt, vec![], vec![]);
         // the longest lists (k = 4) only against the strong etag, the others get k - 1
@@ -739,7 +842,9 @@ pub fn run_c04(run: &mut Run) -> Stats {
                 }
             }
         }
-    })
+    });
+    total.merge(st2);
+    total
 }
 
 // -------------------------------------------------------------------------------------------
@@ -747,7 +852,7 @@ pub fn run_c04(run: &mut Run) -> Stats {
 
 pub fn run_c05(run: &mut Run) -> Stats {
     let tier = run.tier;
-    let etags: Vec<Option<Vec<u8>>> = vec![None, Some(b"\"v1\"".to_vec()), Some(b"W/\"v1\"".to_vec()), Some(b"\"v1-caf\xc3\xa9\xff\"".to_vec()), Some(format!("\"{}\"", "t".repeat(300)).into_bytes())];
+    let etags: Vec<Option<Vec<u8>>> = gen::etags_rich();
     let mtimes = [None, Some(gen::t(gen::LM, 0)), Some(gen::t(gen::LM, 250_000_000))];
     let mut if_ranges: Vec<Vec<u8>> = ["\"v1\"", "W/\"v1\"", "\"v2\"", "\"V1\"", "\"v\"", "\"v11\"", "\"v1", "v1\"", "v1", "\"\"", "*", "W/", "\"v1\" ", " \"v1\"", "\"v1\",\"v1\""]
         .iter()
@@ -1066,7 +1171,9 @@ pub fn run_c07(run: &mut Run) -> Stats {
 
 pub fn run_c13(run: &mut Run) -> Stats {
     let tier = run.tier;
-    let alpha: [u8; 14] = [b'0', b'1', b'9', b'-', b',', b' ', b'\t', b'=', b'"', b'W', b'/', b'*', b'+', 0xff];
+    // symbols, not bytes: U+00E9 and U+20AC are well-formed multi-byte UTF-8 characters
+    let alpha: [&[u8]; 16] = [b"0", b"1", b"9", b"-", b",", b" ", b"\t", b"=", b"\"", b"W", b"/", b"*", b"+", b"\xff", b"\xc3\xa9", b"\xe2\x82\xac"];
+    let na = alpha.len() as u64;
     let maxlen = tier.pick(4, 6);
     let prefixes: [&[u8]; 4] = [b"", b"bytes=", b"W/\"", b"\""];
     let hdrs = ["range", "if-range", "if-match", "if-none-match", "if-modified-since", "if-unmodified-since"];
@@ -1075,7 +1182,7 @@ pub fn run_c13(run: &mut Run) -> Stats {
     // number of strings of length <= maxlen
     let mut nstr: u64 = 0;
     for k in 0..=maxlen {
-        nstr += 14u64.pow(k as u32);
+        nstr += na.pow(k as u32);
     }
     let decode = |mut x: u64| -> Vec<u8> {
         let mut k = 0;
@@ -1083,12 +1190,12 @@ pub fn run_c13(run: &mut Run) -> Stats {
         while x >= block {
             x -= block;
             k += 1;
-            block = 14u64.pow(k as u32);
+            block = na.pow(k as u32);
         }
         let mut v = Vec::with_capacity(k);
         for _ in 0..k {
-            v.push(alpha[(x % 14) as usize]);
-            x /= 14;
+            v.extend_from_slice(alpha[(x % na) as usize]);
+            x /= na;
         }
         v
     };
@@ -1117,8 +1224,8 @@ pub fn run_c13(run: &mut Run) -> Stats {
     }
     // strings x prefixes x headers are the outer items; lens x etag/mtime x methods inside
     let n_outer = nstr * prefixes.len() as u64 * hdrs.len() as u64;
-    run.rule = format!("(a) methods {{GET,HEAD,POST,PUT,DELETE,OPTIONS,PATCH,TRACE,CONNECT,FOO,get}}; (b) for each of the six request headers every byte string of length <= {maxlen} over the parsers' branch characters {{0 1 9 - , SP HTAB = \" W / * + 0xFF}} appended to the prefixes {{'', 'bytes=', 'W/\"', '\"'}} (strings the http crate refuses as header values are skipped and counted), boundary numbers 2^32..10^30 in every numeric slot of 1- and 2-spec ranges, grey-zone list syntax; (c) the same header line twice; (d) pairs of headers from the length <= 2 sets; x entity length {{0,1,10,2^32,2^63,2^64-1}} x etag/mtime presence. Oracle: no panic in serve() or while draining (+3 polls), status in the documented set, non-GET/HEAD => 405 + Allow naming GET and HEAD + no get_range. non-trivial = distinct (header name, value, L, validators present)");
-    run.bounds = json!({"max_len": maxlen, "alphabet": 14, "strings": nstr, "prefixes": 4, "headers": 6, "entity_lens": lens.iter().map(|l| l.to_string()).collect::<Vec<_>>()});
+    run.rule = format!("(a) methods {{GET,HEAD,POST,PUT,DELETE,OPTIONS,PATCH,TRACE,CONNECT,FOO,get}}; (b) for each of the six request headers every string of <= {maxlen} symbols over the parsers' branch characters {{0 1 9 - , SP HTAB = \" W / * + 0xFF U+00E9 U+20AC (UTF-8)}} appended to the prefixes {{'', 'bytes=', 'W/\"', '\"'}} (strings the http crate refuses as header values are skipped and counted), boundary numbers 2^32..10^30 in every numeric slot of 1- and 2-spec ranges, grey-zone list syntax; (c) the same header line twice; (d) pairs of headers from the length <= 2 sets; x entity length {{0,1,10,2^32,2^63,2^64-1}} x etag/mtime presence. Oracle: no panic in serve() or while draining (+3 polls), status in the documented set, non-GET/HEAD => 405 + Allow naming GET and HEAD + no get_range. non-trivial = distinct (header name, value, L, validators present)");
+    run.bounds = json!({"max_len_in_symbols": maxlen, "alphabet_symbols": na, "strings": nstr, "prefixes": 4, "headers": 6, "entity_lens": lens.iter().map(|l| l.to_string()).collect::<Vec<_>>()});
     run.exhaustive = true;
     let ev = Eval { prop: &run.prop.clone(), extra_polls: 3 };
     let mut ents: Vec<EntSpec> = lens
@@ -1237,7 +1344,7 @@ pub fn run_c13(run: &mut Run) -> Stats {
 // C14
 
 pub fn run_c14(run: &mut Run) -> Stats {
-    let etags: Vec<Option<Vec<u8>>> = vec![None, Some(b"\"v1\"".to_vec()), Some(b"W/\"v1\"".to_vec()), Some(format!("\"{}\"", "e".repeat(300)).into_bytes()), Some(b"\"v1-caf\xc3\xa9\xff\"".to_vec())];
+    let etags: Vec<Option<Vec<u8>>> = gen::etags_rich();
     let hsets = gen::header_sets();
     // mtime index 6 = one day in the future (computed per execution)
     let past: Vec<Option<std::time::SystemTime>> = vec![None, Some(gen::t(0, 0)), Some(gen::t(gen::LM, 0)), Some(gen::t(gen::LM, 1_000_000)), Some(gen::t(gen::LM, 1)), Some(gen::t(gen::LM, 999_999_999))];
@@ -1253,15 +1360,15 @@ pub fn run_c14(run: &mut Run) -> Stats {
     let mut outer = Vec::new();
     for e in 0..etags.len() {
         for mt in 0..=past.len() {
-            for h in 0..3 {
+            for h in 0..hsets.len() {
                 for fi in 0..firsts.len() {
                     outer.push((e, mt, h, fi));
                 }
             }
         }
     }
-    run.rule = "all two-request histories: request 1 in {GET, GET+satisfiable Range, GET+If-None-Match miss, unsatisfiable Range (416), failing If-Match (412), If-None-Match hit (304), multi-range}; request 2 = GET/HEAD echoing every subset of {If-None-Match: <served ETag>, If-Modified-Since: <served Last-Modified>, If-Match: <served ETag>, If-Unmodified-Since: <served Last-Modified>, If-Range: <served ETag> + Range} (32 subsets), built from the bytes actually served; x etag {absent, strong, weak} x mtime {absent, epoch, whole second, +1ms, +1ns, +999999999ns, now+1day} x entity header sets {none,1,2}. Oracle step 1: Accept-Ranges, ETag byte-equal, Date/Last-Modified parseable with LM <= Date and LM == floor(mtime) for past mtimes, entity headers present on 200/206-without-If-Range and absent on 304/412/416. Step 2: outcome derived from the echoed subset alone. non-trivial = distinct (entity, first request, echoed subset, method)".into();
-    run.bounds = json!({"etag": 3, "mtime": 7, "header_sets": 3, "first_requests": firsts.len(), "echo_subsets": 32});
+    run.rule = "all two-request histories: request 1 in {GET, GET+satisfiable Range, GET+If-None-Match miss, unsatisfiable Range (416), failing If-Match (412), If-None-Match hit (304), multi-range}; request 2 = GET/HEAD echoing every subset of {If-None-Match: <served ETag>, If-Modified-Since: <served Last-Modified>, If-Match: <served ETag>, If-Unmodified-Since: <served Last-Modified>, If-Range: <served ETag> + Range} (32 subsets), built from the bytes actually served; x etag {absent, strong, weak; tags containing comma, semicolon, '*', 'W/', backslash, obs-text, the empty tag, a 300-byte tag} x mtime {absent, epoch, whole second, +1ms, +1ns, +999999999ns, now+1day} x entity header sets {none, 1, 2, 3, Latin-1 values, repeated field names}. Oracle step 1: Accept-Ranges, ETag byte-equal, Date/Last-Modified parseable with LM <= Date and LM == floor(mtime) for past mtimes, entity headers present on 200/206-without-If-Range and absent on 304/412/416. Step 2: outcome derived from the echoed subset alone. non-trivial = distinct (entity, first request, echoed subset, method)".into();
+    run.bounds = json!({"etag": etags.len(), "mtime": 7, "header_sets": hsets.len(), "first_requests": firsts.len(), "echo_subsets": 32});
     run.assumptions.push("SystemTime::now() is not controlled: past mtimes are decades old, the future one is a day ahead, so no verdict depends on when the two calls happen".into());
     let ev = Eval { prop: &run.prop.clone(), extra_polls: 1 };
     par_for(outer.len() as u64, threads(), |i, st| {
@@ -1438,17 +1545,72 @@ pub fn run_c15_serve(run: &mut Run) -> Stats {
 }
 
 // -------------------------------------------------------------------------------------------
+// Histories of requests: serve() must be a function of its inputs
+
+/// Every ordered pair (A, B) over a set of requests that reaches every response class (200,
+/// single 206, multipart with and without entity headers, the 413 of a multipart whose length
+/// overflows, 304, 412, 416, 405, 400, HEAD), executed as "A, then B" on a fresh OS thread; B's
+/// response is judged by the ordinary oracle of `prop`. A response that is right from the
+/// initial state and wrong after another request (a scratch buffer, cache or lazily built table
+/// that survives a call) shows up here with the two-request history as its replay.
+pub fn run_pairs(prop: &str) -> Stats {
+    let hs = gen::header_sets();
+    let mut reps: Vec<(Req, EntSpec)> = Vec::new();
+    for (l, hset) in [(400u64, 1usize), (400, 5), (u64::MAX, 2), (100_000, 3)] {
+        let e = ent(l, Some(b"\"v1\""), Some(gen::t(gen::LM, 0)), hs[hset].clone(), vec![]);
+        let big = l == u64::MAX;
+        let mut reqs: Vec<Req> = vec![
+            Req::new("GET"),
+            Req::new("GET").with("range", b"bytes=1-3"),
+            Req::new("GET").with("range", b"bytes=0-1,5-6"),
+            Req::new("GET").with("range", b"bytes=0-1,5-6,9-9").with("if-range", b"\"v1\""),
+            Req::new("HEAD").with("range", b"bytes=0-1,5-6"),
+            Req::new("GET").with("if-none-match", b"\"v1\""),
+            Req::new("GET").with("if-match", b"\"zz\""),
+            Req::new("GET").with("range", format!("bytes={l}-").as_bytes()),
+            Req::new("POST"),
+            Req::new("GET").with("if-modified-since", b"yesterday"),
+        ];
+        if big {
+            // the estimate says multipart, the exact length does not fit 64 bits => 413
+            reqs.push(Req::new("GET").with("range", format!("bytes=0-{},{}-{}", l - 170, l - 1, l - 1).as_bytes()));
+            reqs.push(Req::new("GET").with("range", format!("bytes=0-{},{}-{}", l - 400, l - 1, l - 1).as_bytes()));
+        }
+        for r in reqs {
+            reps.push((r, e.clone()));
+        }
+    }
+    let n = reps.len() as u64;
+    let ev = Eval { prop, extra_polls: 1 };
+    par_for(n * n, threads(), |i, st| {
+        let (a, b) = (&reps[(i / n) as usize], &reps[(i % n) as usize]);
+        on_fresh_thread(|| {
+            let _ = run_serve(&a.0, &a.1, 1, HORIZON);
+            RECENT.with(|r| r.borrow_mut().push_back(a.clone()));
+            if ev.run(&b.0, &b.1, st, (1 << 61) + i).is_some() {
+                st.nontrivial(&("pair", i));
+                st.count("request_pairs_on_a_fresh_thread", 1);
+            }
+        });
+    })
+}
+
+// -------------------------------------------------------------------------------------------
 // Replay
 
 pub fn replay(case: &serde_json::Value, prop: &str) -> i32 {
     let req = Req::from_json(&case["request"]);
     let e = osv::ent_from_json(&case["entity"]);
     let extra = case["extra_polls"].as_u64().unwrap_or(2) as usize;
-    let Some(o1) = run_serve(&req, &e, extra, HORIZON) else {
+    let history: Vec<(Req, EntSpec)> = case["history"].as_array().map(|a| a.iter().map(|h| (Req::from_json(&h["request"]), osv::ent_from_json(&h["entity"]))).collect()).unwrap_or_default();
+    if !history.is_empty() {
+        println!("replaying after {} earlier request(s) on the same (fresh) thread", history.len());
+    }
+    let Some(o1) = run_after(&history, &req, &e, extra) else {
         eprintln!("request not constructible");
         return 2;
     };
-    let o2 = run_serve(&req, &e, extra, HORIZON).unwrap();
+    let o2 = run_after(&history, &req, &e, extra).unwrap();
     if o1.stable_repr() != o2.stable_repr() {
         eprintln!("MACHINERY ERROR: two replays of the same case differ");
         return 2;
